@@ -11,6 +11,11 @@ import (
 type PathSpec struct {
 	Origin string    `json:"origin,omitempty"`
 	Elems  []gn.Elem `json:"elems,omitempty"`
+	// Unset: the path field of the Subscription is absent (only honoured when the spec has neither
+	// origin nor elements): in proto3 an unset path means "the prefix itself".
+	Unset bool `json:"unset,omitempty"`
+	// Element: this path uses the deprecated string elements.
+	Element bool `json:"element,omitempty"`
 }
 
 // SubSpec is one Subscribe RPC.
@@ -22,7 +27,8 @@ type SubSpec struct {
 	PElems      []gn.Elem  `json:"pelems,omitempty"`
 	Paths       []PathSpec `json:"paths"`
 	User        int        `json:"user"`
-	Gated       bool       `json:"gated,omitempty"` // Send needs credit from grant steps (else it always passes)
+	Gated       bool       `json:"gated,omitempty"`    // Send needs credit from grant steps (else it always passes)
+	PElement    bool       `json:"pelement,omitempty"` // the prefix uses the deprecated string elements
 }
 
 // Upd is one update.
@@ -46,6 +52,9 @@ type WOp struct {
 	// modulo their number): origin and prefix are dropped, the path becomes
 	// that leaf's index path as plain elements.
 	Pick int `json:"pick,omitempty"`
+	// Enc: path encoding of the notification: 0 structured, 1 deprecated strings, 2 prefix deprecated + paths
+	// structured, 3 prefix structured + paths deprecated, 4 structured plus stray deprecated strings.
+	Enc int `json:"enc,omitempty"`
 	// Star: a re-addressed delete replaces the last element of the picked
 	// leaf's path by "*" (a glob delete over its siblings).
 	Star bool `json:"star,omitempty"`
@@ -188,7 +197,10 @@ func genElems(t *rapid.T, min, max int, glob bool) []gn.Elem {
 }
 
 func genVal(t *rapid.T) gn.Val {
-	switch rapid.IntRange(0, 5).Draw(t, "vkind") {
+	switch rapid.IntRange(0, 6).Draw(t, "vkind") {
+	case 6:
+		// the deprecated Update.value field
+		return gn.Val{Kind: "deprecated", S: rapid.SampledFrom([]string{`1`, `2`, `"x"`}).Draw(t, "dep")}
 	case 0, 1, 2:
 		return gn.Val{Kind: "int", I: int64(rapid.IntRange(0, 3).Draw(t, "i"))}
 	case 3:
@@ -209,7 +221,8 @@ func genWOp(pr profile, targets int) func(t *rapid.T) *WOp {
 		if rapid.IntRange(0, 99).Draw(t, "relative") < pr.pickPct {
 			w.Pick = rapid.IntRange(1, 5).Draw(t, "pick")
 		}
-		w.Origin = rapid.SampledFrom([]string{"", "", "", "o"}).Draw(t, "origin")
+		w.Origin = rapid.SampledFrom([]string{"", "", "", "o", "o", "openconfig"}).Draw(t, "origin")
+		w.Enc = rapid.SampledFrom([]int{0, 0, 0, 0, 0, 0, 0, 1, 2, 3, 4}).Draw(t, "enc")
 		w.Prefix = genElems(t, 0, 1, false)
 		w.Old = rapid.IntRange(0, 9).Draw(t, "old") == 0
 		if w.Pick > 0 {
@@ -272,14 +285,16 @@ func genSub(pr profile, targets, users int) func(t *rapid.T) SubSpec {
 		s.User = rapid.IntRange(0, users-1).Draw(t, "user")
 		s.Gated = rapid.IntRange(0, 99).Draw(t, "gated") < pr.gatedPct
 		// origin: none / in the prefix / in the paths / (rarely) conflicting
-		where := rapid.SampledFrom([]string{"none", "none", "none", "none", "none", "none", "prefix", "prefix", "path", "path", "both", "path+pelems"}).Draw(t, "originwhere")
+		where := rapid.SampledFrom([]string{"none", "none", "none", "none", "none", "none", "prefix", "prefix", "path", "path", "both", "path+pelems", "per-path", "per-path"}).Draw(t, "originwhere")
+		oname := rapid.SampledFrom([]string{"o", "o", "o", "openconfig"}).Draw(t, "origin-name")
 		if where == "prefix" || where == "both" {
-			s.POrigin = "o"
+			s.POrigin = oname
 		}
 		s.PElems = genElems(t, 0, 1, true)
-		if where == "path" {
+		if where == "path" || where == "per-path" {
 			s.PElems = nil
 		}
+		s.PElement = rapid.IntRange(0, 9).Draw(t, "pelement") == 0
 		if where == "path+pelems" && len(s.PElems) == 0 {
 			s.PElems = genElems(t, 1, 1, false)
 		}
@@ -292,7 +307,15 @@ func genSub(pr profile, targets, users int) func(t *rapid.T) SubSpec {
 				p.Elems = append(append([]gn.Elem{}, prev[:len(prev)-1]...), genElem(t, true))
 			}
 			if where == "path" || where == "both" || where == "path+pelems" {
-				p.Origin = "o"
+				p.Origin = oname
+			}
+			if where == "per-path" {
+				// every path names its own origin (or none)
+				p.Origin = rapid.SampledFrom([]string{"", "o", "openconfig"}).Draw(t, "path-origin")
+			}
+			p.Element = rapid.IntRange(0, 9).Draw(t, "element") == 0
+			if len(p.Elems) == 0 && p.Origin == "" {
+				p.Unset = rapid.Bool().Draw(t, "unset")
 			}
 			s.Paths = append(s.Paths, p)
 		}
